@@ -48,11 +48,28 @@ func mkp(s string) *pb.Path {
 		return &pb.Path{}
 	case "<depr a>":
 		return &pb.Path{Element: []string{"a"}}
+	case "<deep 2 keys>":
+		// 18 plain elements, then a list entry with TWO keys, then one more: 22
+		// index strings - more than any fixed-size scratch buffer sized for
+		// "ordinary" paths, with the multi-key element right at such a boundary
+		p := &pb.Path{}
+		for i := 0; i < 18; i++ {
+			p.Elem = append(p.Elem, &pb.PathElem{Name: fmt.Sprintf("e%d", i)})
+		}
+		p.Elem = append(p.Elem, &pb.PathElem{Name: "route", Key: map[string]string{"prefix": "10.0.0.0/8", "path-id": "7"}}, &pb.PathElem{Name: "valid"})
+		return p
+	case "<deep 3 keys>":
+		p := &pb.Path{}
+		for i := 0; i < 17; i++ {
+			p.Elem = append(p.Elem, &pb.PathElem{Name: fmt.Sprintf("e%d", i)})
+		}
+		p.Elem = append(p.Elem, &pb.PathElem{Name: "r", Key: map[string]string{"a": "1", "b": "2", "c": "3"}})
+		return p
 	}
 	return &pb.Path{Elem: elems(strings.Split(s, "/")...)}
 }
 
-var allPaths = []string{"<nil>", "<empty>", "a", "a/b", "*", "meta", "meta/sync", "meta/connected", "meta/targetLeaves", "meta/x", "meta/connectError", "meta/latestTimestamp", "<depr a>"}
+var allPaths = []string{"<nil>", "<empty>", "a", "a/b", "*", "meta", "meta/sync", "meta/connected", "meta/targetLeaves", "meta/x", "meta/connectError", "meta/latestTimestamp", "<depr a>", "<deep 2 keys>", "<deep 3 keys>"}
 var fewPaths = []string{"a", "meta/sync", "<empty>", "<nil>"}
 
 func mkv(s string) *pb.TypedValue {
@@ -507,7 +524,7 @@ func (r respSpec) build() *pb.SubscribeResponse {
 
 func respAlphabet() []respSpec {
 	out := []respSpec{{kind: "nooneof"}, {kind: "sync"}, {kind: "error"}, {kind: "emptyupdate"}}
-	for _, p := range []string{"<nil>", "<empty>", "a", "a/b", "<depr a>"} {
+	for _, p := range []string{"<nil>", "<empty>", "a", "a/b", "<depr a>", "<deep 2 keys>"} {
 		for _, v := range displayVals {
 			out = append(out, respSpec{"update", p, v}, respSpec{"update-noprefix", p, v})
 		}
